@@ -14,7 +14,8 @@ Incremental reception (C10), generic part.
 * the specification's predictor `Spec.predict`: shifting by a header, monotonicity along prefixes,
   a bound on complete PDUs.
 -/
-namespace Modbus
+namespace Modbus.Reception
+open Spec
 
 /-! ### the scan loop -/
 
@@ -109,7 +110,6 @@ theorem good_of_attempt {F : Type} (predict : Bytes → Res (Option Nat))
 
 /-! ### the specification's predictor -/
 
-namespace Spec
 
 /-- a prefix either is still incomplete or already gets the final answer -/
 theorem predict_prefix (hdr : Nat) (d : Dir) (p q : List UInt8) (h : p <+: q) :
@@ -166,16 +166,16 @@ theorem predict_shift (hdr : Nat) (d : Dir) (H b : List UInt8) (hH : H.length = 
   simp only [e1, k0, Nat.add_assoc, key, Nat.zero_add]
 
 /-- the bounds of the table's entries -/
-def LenRule.Bounded : LenRule → Prop
+def RuleBounded : LenRule → Prop
   | .fixed n => 1 ≤ n ∧ n ≤ 7
   | .count1 base _ => 1 ≤ base ∧ base ≤ 10
   | .count2 base _ => 1 ≤ base ∧ base ≤ 3
   | .unknown => True
 
-instance : DecidablePred LenRule.Bounded := fun r => by
-  cases r <;> unfold LenRule.Bounded <;> infer_instance
+instance : DecidablePred RuleBounded := fun r => by
+  cases r <;> unfold RuleBounded <;> infer_instance
 
-theorem lenRule_bounds (d : Dir) (fc : UInt8) : (lenRule d fc.toNat).Bounded := by
+theorem lenRule_bounds (d : Dir) (fc : UInt8) : RuleBounded (lenRule d fc.toNat) := by
   cases d
   · revert fc; apply byte_cases; decide +kernel
   · revert fc; apply byte_cases; decide +kernel
@@ -194,11 +194,11 @@ theorem predict_len_bounds (hdr : Nat) (d : Dir) (b : List UInt8) (n : Nat)
       have hb := lenRule_bounds d fc
       cases hr : lenRule d fc.toNat with
       | fixed m =>
-        rw [hr] at h hb; simp only [LenRule.Bounded] at h hb
+        rw [hr] at h hb; simp only [RuleBounded] at h hb
         cases h; omega
       | unknown => rw [hr] at h; cases h
       | count1 base off =>
-        rw [hr] at h hb; simp only [LenRule.Bounded] at h hb
+        rw [hr] at h hb; simp only [RuleBounded] at h hb
         cases hc : b[hdr + off]? with
         | none => rw [hc] at h; cases h
         | some c =>
@@ -206,7 +206,7 @@ theorem predict_len_bounds (hdr : Nat) (d : Dir) (b : List UInt8) (n : Nat)
           have := c.toNat_lt
           cases h; omega
       | count2 base off =>
-        rw [hr] at h hb; simp only [LenRule.Bounded] at h hb
+        rw [hr] at h hb; simp only [RuleBounded] at h hb
         cases hc : b[hdr + off]? with
         | none => rw [hc] at h; cases h
         | some c =>
@@ -220,11 +220,11 @@ theorem predict_len_bounds (hdr : Nat) (d : Dir) (b : List UInt8) (n : Nat)
             cases h; omega
 
 /-- a complete PDU has between 1 and 65538 bytes -/
-theorem PduComplete.bounds {d : Dir} {pdu : List UInt8} (h : PduComplete d pdu) :
+theorem pduComplete_bounds {d : Dir} {pdu : List UInt8} (h : PduComplete d pdu) :
     1 ≤ pdu.length ∧ pdu.length ≤ 65538 := predict_len_bounds 0 d pdu _ h
 
 /-- a complete PDU behind a header, followed by anything: the prediction is its length -/
-theorem PduComplete.predict_framed {d : Dir} {pdu : List UInt8} (h : PduComplete d pdu)
+theorem predict_framed {d : Dir} {pdu : List UInt8} (h : PduComplete d pdu)
     (hdr : Nat) (H tail : List UInt8) (hH : H.length = hdr) :
     predict hdr d (H ++ (pdu ++ tail)) = .len pdu.length := by
   rw [predict_shift hdr d H _ hH]
@@ -233,14 +233,13 @@ theorem PduComplete.predict_framed {d : Dir} {pdu : List UInt8} (h : PduComplete
   · rw [← h', h]
 
 /-- … and on a prefix of such a buffer it is 'incomplete' or that length -/
-theorem PduComplete.predict_framed_prefix {d : Dir} {pdu : List UInt8} (h : PduComplete d pdu)
+theorem predict_framed_prefix {d : Dir} {pdu : List UInt8} (h : PduComplete d pdu)
     (hdr : Nat) (H tail p : List UInt8) (hH : H.length = hdr) (hp : p <+: H ++ (pdu ++ tail)) :
     predict hdr d p = .incomplete ∨ predict hdr d p = .len pdu.length := by
   rcases predict_prefix hdr d p _ hp with h' | h'
   · exact .inl h'
-  · right; rw [h', h.predict_framed hdr H tail hH]
+  · right; rw [h', predict_framed h hdr H tail hH]
 
-end Spec
 
 /-- the answer of a model predictor corresponding to an answer of the specification's;
 `fc` is the byte reported in the error -/
@@ -249,4 +248,4 @@ def predRes (fc : UInt8) : Spec.Pred → Res (Option Nat)
   | .incomplete => .ok none
   | .reject => .err (.fnCode fc)
 
-end Modbus
+end Modbus.Reception
